@@ -219,8 +219,13 @@ def run_writer(case, res):
                     t.save(pth, meta=user_meta, key_map=km, value_map=vm, compression=comp, **save_kw)
                     res.count(f"writer_path_compression:{comp!r}")
                     if comp is False:
-                        with open(pth, encoding="utf8") as f2:
-                            text = f2.read()
+                        with open(pth, "rb") as f2:
+                            raw = f2.read()
+                        try:
+                            text = raw.decode("utf8")
+                        except UnicodeDecodeError as e:
+                            res.violation(case, f"the file written by save(path) is not UTF-8 text: {e}")
+                            return
                     elif not zipfile.is_zipfile(pth):
                         bad.append(f"save(path, compression={comp!r}) did not write a zip archive")
                         with open(pth, encoding="utf8") as f2:
@@ -232,7 +237,11 @@ def run_writer(case, res):
                                 bad.append(f"zip archive written by save() holds {len(members)} members: {members}")
                             if comp is not True and zf.infolist()[0].compress_type != comp:
                                 bad.append(f"save(compression={comp}) wrote a member with compress_type {zf.infolist()[0].compress_type}")
-                            text = zf.read(members[0]).decode("utf8")
+                            try:
+                                text = zf.read(members[0]).decode("utf8")
+                            except UnicodeDecodeError as e:
+                                res.violation(case, f"the document inside the zip archive written by save() is not UTF-8 text: {e}")
+                                return
                 finally:
                     shutil.rmtree(tmp, ignore_errors=True)
                 fp.write(text)
